@@ -25,7 +25,75 @@ import json
 import pathlib
 
 FuncT = (ast.FunctionDef, ast.AsyncFunctionDef)
-KNOWN = set(json.loads((pathlib.Path(__file__).resolve().parent / "known_functions.json").read_text()))
+_INVENTORY = json.loads((pathlib.Path(__file__).resolve().parent / "known_functions.json").read_text())   # "module:qualname" -> fingerprint
+KNOWN_CONSTANTS = set(_INVENTORY.pop("@constants", []))
+KNOWN = set(_INVENTORY)
+
+
+def fingerprint(fn):
+    """what a function touches, independent of its own name and of the names of its locals: attribute names, called plain names,
+    short string constants (the docstring excluded)"""
+    out = set()
+    body = _body_wo_doc(fn)
+    for st in body:
+        for n in ast.walk(st):
+            if isinstance(n, ast.Attribute):
+                out.add("a:" + n.attr)
+            elif isinstance(n, ast.Call) and isinstance(n.func, ast.Name):
+                out.add("c:" + n.func.id)
+            elif isinstance(n, ast.Constant) and isinstance(n.value, str) and len(n.value) <= 60:
+                out.add("s:" + n.value)
+    return sorted(out)
+
+
+def undo_renames(trees):
+    """a reference method / module function that is missing while an unknown one with (nearly) the same fingerprint exists in the
+    same class / module was renamed: the old name is restored at the definition and at every reference, so that rules that
+    name a function of the reference tree keep finding it. -> {new name: old name}"""
+    renamed = {}
+    for mod, tree in trees.items():
+        qn = _qualnames(tree, mod)
+        cur = {q: fn for fn, q in qn.items() if q.count(".") <= 1}
+        known_here = {k.split(":", 1)[1]: v for k, v in _INVENTORY.items() if k.startswith(mod + ":") and k.split(":", 1)[1].count(".") <= 1}
+        missing = {q: fp for q, fp in known_here.items() if q not in cur}
+        new = {q: fn for q, fn in cur.items() if q not in known_here}
+        if not missing or not new:
+            continue
+        pairs = []
+        for nq, fn in new.items():
+            fp = set(fingerprint(fn))
+            for mq, mfp in missing.items():
+                if nq.rsplit(".", 1)[0:-1] != mq.rsplit(".", 1)[0:-1]:
+                    continue   # another class / the module level
+                mset = set(mfp)
+                if not fp and not mset:
+                    continue
+                sim = len(fp & mset) / max(1, len(fp | mset))
+                pairs.append((sim, nq, mq))
+        pairs.sort(reverse=True)
+        used_n, used_m = set(), set()
+        for sim, nq, mq in pairs:
+            if sim < 0.6 or nq in used_n or mq in used_m:
+                continue
+            # ambiguous second-best for the same new function: skip
+            rivals = [s_ for s_, n_, m_ in pairs if n_ == nq and m_ != mq and s_ >= sim - 0.1]
+            if rivals:
+                continue
+            used_n.add(nq)
+            used_m.add(mq)
+            old_name, new_name = mq.rsplit(".", 1)[-1], nq.rsplit(".", 1)[-1]
+            if any(isinstance(n, FuncT) and n.name == old_name for t in trees.values() for n in ast.walk(t)):
+                continue   # the old name is in use elsewhere: do not merge
+            for t in trees.values():
+                for n in ast.walk(t):
+                    if isinstance(n, FuncT) and n.name == new_name:
+                        n.name = old_name
+                    elif isinstance(n, ast.Attribute) and n.attr == new_name:
+                        n.attr = old_name
+                    elif isinstance(n, ast.Name) and n.id == new_name and "." not in nq:
+                        n.id = old_name
+            renamed[f"{mod}:{nq}"] = mq
+    return renamed
 
 
 def _qualnames(tree, mod):
@@ -235,9 +303,17 @@ def _bind(helper, call, kind, is_method, caller_names, counter):
                 return None
     stored = {n.id for n in ast.walk(helper) if isinstance(n, ast.Name) and isinstance(n.ctx, (ast.Store, ast.Del))}
     prelude, mapping = [], {}
+    loads = {}
+    for n in ast.walk(helper):
+        if isinstance(n, ast.Name) and isinstance(n.ctx, ast.Load):
+            loads[n.id] = loads.get(n.id, 0) + 1
+    in_loop = {n.id for l in ast.walk(helper) if isinstance(l, (ast.For, ast.AsyncFor, ast.While, ast.Lambda) + FuncT) and l is not helper
+               for n in ast.walk(l) if isinstance(n, ast.Name)}
     for p_, a_ in bound.items():
         if _pure_ref(a_) and p_ not in stored:
             mapping[p_] = a_
+        elif p_ not in stored and loads.get(p_, 0) == 1 and p_ not in in_loop and not any(isinstance(x, (ast.Await, ast.Yield, ast.NamedExpr)) for x in ast.walk(a_)):
+            mapping[p_] = a_    # evaluated once, at its single use
         else:
             new = p_ if p_ not in caller_names else f"{p_}__{helper.name.strip('_')}{counter}"
             prelude.append(ast.Assign(targets=[ast.Name(id=new, ctx=ast.Store())], value=copy.deepcopy(a_), lineno=getattr(call, "lineno", 1)))
@@ -262,6 +338,9 @@ def _rewrite_returns(stmts, mode, target):
         if isinstance(s, ast.Return):
             if mode == "return":
                 out.append(s)
+            elif mode == "assign" and isinstance(target, tuple):
+                v = s.value if s.value is not None else ast.Constant(None)
+                out.append(ast.copy_location(ast.AugAssign(target=copy.deepcopy(target[1]), op=target[2], value=v), s))
             elif mode == "assign":
                 v = s.value if s.value is not None else ast.Constant(None)
                 if isinstance(target, ast.Tuple) and isinstance(v, ast.Tuple) and len(v.elts) == len(target.elts) and all(isinstance(t, ast.Name) for t in target.elts) \
@@ -454,6 +533,8 @@ def inline_new_helpers(trees):
                             val, mode = s.value, "expr"
                         elif isinstance(s, ast.Assign) and len(s.targets) == 1:
                             val, mode, target = s.value, "assign", s.targets[0]
+                        elif isinstance(s, ast.AugAssign):
+                            val, mode, target = s.value, "assign", ("aug", s.target, s.op)
                         elif isinstance(s, ast.Return) and s.value is not None:
                             val, mode = s.value, "return"
                         awaited = isinstance(val, ast.Await)
@@ -468,7 +549,7 @@ def inline_new_helpers(trees):
                                     prelude, mapping = b
                                     body = [_SpliceStar().visit(_Fold().visit(_Renamer(mapping).visit(x))) for x in _helper_body(fn)]
                                     body = _rewrite_returns(body, mode, target)
-                                    if mode == "assign" and not _all_paths_assign(body, target):
+                                    if mode == "assign" and not isinstance(target, tuple) and not _all_paths_assign(body, target):
                                         body = [ast.copy_location(ast.Assign(targets=[copy.deepcopy(target)], value=ast.Constant(None), lineno=s.lineno), s)] + body
                                     new = prelude + (body or [ast.copy_location(ast.Pass(), s)])
                                     for x in new:
@@ -530,3 +611,143 @@ def _all_paths_assign(stmts, target):
     if isinstance(last, ast.Try):
         return _all_paths_assign(last.body + last.orelse, target) and all(_all_paths_assign(h.body, target) for h in last.handlers)
     return False
+
+
+def localise_single_use_methods(trees):
+    """a NEW method that could not be inlined (decorated, or used as a value / through functools.partial) and that is referenced
+    from exactly one other method of its class is moved into that method as a nested function - the reverse of "move the nested
+    worker / callback out to a private method". `self.m(a)` becomes `m(self, a)`, a static `self.m` value becomes `m`.
+    -> list of moved qualnames"""
+    moved = []
+    for mod, tree in trees.items():
+        for cls in [n for n in ast.walk(tree) if isinstance(n, ast.ClassDef)]:
+            methods = [n for n in cls.body if isinstance(n, FuncT)]
+            for m in list(methods):
+                q = f"{mod}:{cls.name}.{m.name}"
+                if q in KNOWN or (m.name.startswith("__") and m.name.endswith("__")):
+                    continue
+                decos = [d.id for d in m.decorator_list if isinstance(d, ast.Name)]
+                if "classmethod" in decos or "property" in decos:
+                    continue
+                static = "staticmethod" in decos
+                refs = []   # (host function, attribute node)
+                elsewhere = False
+                for host in methods:
+                    if host is m:
+                        if any(isinstance(x, ast.Attribute) and x.attr == m.name for x in ast.walk(host)):
+                            elsewhere = True   # recursive
+                        continue
+                    for x in ast.walk(host):
+                        if isinstance(x, ast.Attribute) and x.attr == m.name:
+                            if isinstance(x.value, ast.Name) and x.value.id in ("self", "cls", cls.name):
+                                refs.append((host, x))
+                            else:
+                                elsewhere = True
+                for t in trees.values():
+                    for x in ast.walk(t):
+                        if isinstance(x, ast.Attribute) and x.attr == m.name and not any(x is r for _, r in refs):
+                            inside_m = any(x is y for y in ast.walk(m))
+                            if not inside_m:
+                                elsewhere = True
+                hosts = {id(h): h for h, _ in refs}
+                if elsewhere or len(hosts) != 1:
+                    continue
+                host = next(iter(hosts.values()))
+                if any(isinstance(n, ast.Name) and n.id == m.name for n in ast.walk(host)):
+                    continue   # the name is taken inside the host
+                recv_is_self = all(r.value.id in ("self", "cls") for _, r in refs)
+                if not static and not recv_is_self:
+                    continue
+                # rewrite the references
+                parent = {}
+                for n in ast.walk(host):
+                    for ch in ast.iter_child_nodes(n):
+                        parent[ch] = n
+                ok = True
+                for _, r in refs:
+                    par = parent.get(r)
+                    if static:
+                        continue
+                    if not (isinstance(par, ast.Call) and par.func is r):
+                        ok = False   # bound-method value of an instance method: leave the whole thing alone
+                if not ok:
+                    continue
+                for _, r in refs:
+                    par = parent.get(r)
+                    new = ast.copy_location(ast.Name(id=m.name, ctx=ast.Load()), r)
+                    if not static:
+                        par.args.insert(0, ast.copy_location(ast.Name(id=r.value.id, ctx=ast.Load()), r))
+                    for fld, val in ast.iter_fields(par):
+                        if val is r:
+                            setattr(par, fld, new)
+                        elif isinstance(val, list):
+                            for i_, v_ in enumerate(val):
+                                if v_ is r:
+                                    val[i_] = new
+                m.decorator_list = [d for d in m.decorator_list if not (isinstance(d, ast.Name) and d.id == "staticmethod")]
+                cls.body.remove(m)
+                methods.remove(m)
+                pos = 1 if host.body and isinstance(host.body[0], ast.Expr) and isinstance(host.body[0].value, ast.Constant) and isinstance(host.body[0].value.value, str) else 0
+                host.body.insert(pos, m)
+                moved.append(f"{cls.name}.{m.name}")
+        ast.fix_missing_locations(tree)
+    return moved
+
+
+def _literal(v):
+    if isinstance(v, ast.Constant):
+        return True
+    if isinstance(v, (ast.Tuple, ast.List, ast.Set)):
+        return all(_literal(x) for x in v.elts)
+    if isinstance(v, ast.Call) and isinstance(v.func, ast.Name) and v.func.id in ("frozenset", "set", "tuple") and len(v.args) == 1 and not v.keywords:
+        return _literal(v.args[0])
+    return False
+
+
+def propagate_new_constants(trees):
+    """a NEW class-level or module-level name bound once to a literal (constant, or tuple/list/set of constants) and never stored
+    anywhere else is replaced by the literal where it is read (`self.NAME`, `cls.NAME`, `Class.NAME`, bare module `NAME`) - the reverse
+    of "move the constant tuple out of the function". -> list of propagated names"""
+    done = []
+    for mod, tree in trees.items():
+        # module level
+        cands = {}
+        for n in tree.body:
+            if isinstance(n, ast.Assign) and len(n.targets) == 1 and isinstance(n.targets[0], ast.Name) and _literal(n.value) and f"{mod}:{n.targets[0].id}" not in KNOWN_CONSTANTS:
+                cands[n.targets[0].id] = n
+        for name, node in cands.items():
+            stores = [x for x in ast.walk(tree) if isinstance(x, ast.Name) and x.id == name and not isinstance(x.ctx, ast.Load)]
+            shadow = any(isinstance(f, FuncT) and name in {a.arg for a in f.args.args + f.args.kwonlyargs} for f in ast.walk(tree))
+            if len(stores) != 1 or shadow or name.startswith("__"):
+                continue
+
+            class T(ast.NodeTransformer):
+                def visit_Name(self, x):
+                    if x.id == name and isinstance(x.ctx, ast.Load):
+                        return ast.copy_location(copy.deepcopy(node.value), x)
+                    return x
+            T().visit(tree)
+            done.append(f"{mod}:{name}")
+        # class level
+        for cls in [c for c in ast.walk(tree) if isinstance(c, ast.ClassDef)]:
+            for st in list(cls.body):
+                if not (isinstance(st, ast.Assign) and len(st.targets) == 1 and isinstance(st.targets[0], ast.Name) and _literal(st.value)):
+                    continue
+                name = st.targets[0].id
+                if f"{mod}:{cls.name}.{name}" in KNOWN_CONSTANTS or name.startswith("__"):
+                    continue
+                attr_stores_ = [x for t in trees.values() for x in ast.walk(t) if isinstance(x, ast.Attribute) and x.attr == name and not isinstance(x.ctx, ast.Load)]
+                if attr_stores_:
+                    continue
+
+                class T2(ast.NodeTransformer):
+                    def visit_Attribute(self, x):
+                        self.generic_visit(x)
+                        if x.attr == name and isinstance(x.ctx, ast.Load) and isinstance(x.value, ast.Name) and x.value.id in ("self", "cls", cls.name):
+                            return ast.copy_location(copy.deepcopy(st.value), x)
+                        return x
+                for t in trees.values():
+                    T2().visit(t)
+                done.append(f"{mod}:{cls.name}.{name}")
+        ast.fix_missing_locations(tree)
+    return done
